@@ -18,7 +18,7 @@ History family (units 'history:*'): ONE spectrum object per history, every seque
 over {read the five peak functions on two bands, read peak_wavenumber} U {in-place modifications:
 multiply(full array, inplace), multiply(array, dimensions=[frequency] / [direction], inplace) with a
 factor that moves the maximum, fillna(value), item assignment of variance_density, direct dataset
-assignment}; after every read (and once more after the last step) the values must describe the
+assignment, in-place edit of the numpy buffer}; after every read (and once more after the last step) the values must describe the
 variance density the object holds NOW.
 """
 import itertools
@@ -43,9 +43,14 @@ RULE = (
     "other members must still get their own peak. A case (grid, word, in-band node set) is non-trivial when the peak is defined and at "
     "least two in-band values are present; distinct cases are counted once (1d, time layout). "
     "History family: all operation sequences of length <= 3 (quick: length 3 only for 1d in the (time) layout, else <= 2) over "
-    "2 reads and 5 (1d) / 6 (2d) in-place mutators on a fresh 6-member object (grid g5u, mixed depths; layout () uses two "
+    "2 reads and 6 (1d) / 7 (2d) in-place mutators on a fresh 6-member object (grid g5u, mixed depths; layout () uses two "
     "members), bands {default, [f1,f4)}; all factors are dyadic so that ties in e(f) stay exact; a history is non-trivial when "
-    "a read precedes a modification."
+    "a read precedes a modification. Depth lattice: every node f>0 as the peak (impulse word) x 237 depths with w_p^2 d/g "
+    "log-spaced 1e-3..1e2 (ratio <= 1.05), mixed in one batch per (grid, kind, layout). Near-tie / scale family (units "
+    "'neartie:*'): all words over {0, 1, 1+2^-20, 1-2^-23, NaN}^5 x scales {1, 2^-40, 2^-30, 2^20} x every band x batched "
+    "layouts (dyadic, so every e(f) is exact); peak index / frequency / direction / spread must equal the reference and be "
+    "identical for every scale; quick evaluates direction and spread on one band per distinct in-band node set and runs scales "
+    "{1, 2^-40} only in the (time,latitude) and flattened layouts."
 )
 ASSUMPTIONS = [
     "lattice of variance densities {-1,0,1,2,NaN} per bin, not the continuum",
@@ -61,7 +66,8 @@ REQUIRED_CATEGORIES = [
     "layout:scalar", "layout:time", "layout:time_lat", "layout:flat", "kind:1d", "kind:2d", "direction_independent_checked",
     "class:inband_all_nonpositive_band_not_at_0", "batch_with_all_nan_member",
     "history_executed", "history_read_then_mutate", "history_mutation_steps", "history_fillna_filled_bins",
-    "history_peak_moved",
+    "history_peak_moved", "wavenumber_depth_lattice", "near_tie_in_band", "scaled_copies",
+    "low_energy_members(max<1e-8)",
 ]
 
 NAN = float("nan")
@@ -263,6 +269,13 @@ def ref_spread(a, b):
     return math.sqrt(2.0 - 2.0 * math.sqrt(a * a + b * b)) * 180.0 / math.pi
 
 
+def depth_lattice(fp):
+    """depths for which x = w_p^2 d / g is log-spaced from 1e-3 to 1e2 with a ratio <= 1.05 between neighbours."""
+    w = 2.0 * math.pi * fp
+    n = int(math.ceil(math.log(1e5) / math.log(1.05)))
+    return [1e-3 * (1e5 ** (i / n)) * G / (w * w) for i in range(n + 1)]
+
+
 def ref_dispersion_residual(k, w, d):
     with np.errstate(over="ignore", invalid="ignore"):
         return np.abs(np.sqrt(G * k * np.tanh(k * d)) - w) / w
@@ -380,6 +393,8 @@ class Members:
                     CL[m] = 1
                 elif mx < 0 and k[0] == 0 and k[-1] < nf - 1:
                     CL[m] = 2
+                if any(v != mx and abs(v - mx) <= 2e-6 * abs(mx) for v in inv):
+                    cats["near_tie"] = cats.get("near_tie", 0) + 1
                 if sum(1 for v in inv if v == mx) > 1:
                     cats["tie_first_of_plateau"] = cats.get("tie_first_of_plateau", 0) + 1
                 if pb == k[0]:
@@ -458,8 +473,9 @@ def report(agg, name, bad, CL, mem, band, lib, exp):
                 band=list(band), member=m, word=[str(x) for x in mem.words[m]], lib=float(lib[m]), reference=float(exp[m]))
 
 
-def check_band(c, agg, s, mem, band, tab, layout, perfreq, rows=None, raise_class="general"):
-    """Evaluate the five peak functions for one band on spectrum s (members mem[rows])."""
+def check_band(c, agg, s, mem, band, tab, layout, perfreq, rows=None, raise_class="general", only=None):
+    """Evaluate the five peak functions (or the subset `only`) for one band on spectrum s (members mem[rows]);
+    returns the library values by name."""
     PA, PB, CL, _ = tab
     if rows is not None:
         PA, PB, CL = PA[rows], PB[rows], CL[rows]
@@ -472,22 +488,29 @@ def check_band(c, agg, s, mem, band, tab, layout, perfreq, rows=None, raise_clas
     refdir = mem.refdir if rows is None else mem.refdir[rows]
     refspr = mem.refspr if rows is None else mem.refspr[rows]
     ar = np.arange(n)
+    got = {}
 
-    li = call(agg, "peak_index", raise_class, lambda: s.peak_index(fmin, fmax), n, layout, band)
+    def want(name):
+        return only is None or name in only
+
+    li = call(agg, "peak_index", raise_class, lambda: s.peak_index(fmin, fmax), n, layout, band) if want("peak_index") else None
     if li is not None:
+        got["peak_index"] = li
         ok = np.zeros(n, bool)
         for R in cands:
             ok |= li == R
         report(agg, "peak_index", defined & ~ok, CL, sub, band, li, PB)
         c.evaluations += int(defined.sum())
-    pf = call(agg, "peak_frequency", raise_class, lambda: s.peak_frequency(fmin, fmax), n, layout, band)
+    pf = call(agg, "peak_frequency", raise_class, lambda: s.peak_frequency(fmin, fmax), n, layout, band) \
+        if want("peak_frequency") else None
     if pf is not None:
+        got["peak_frequency"] = pf
         ok = np.zeros(n, bool)
         for R in cands:
             ok |= pf == f[np.where(R < 0, 0, R)]
         report(agg, "peak_frequency", defined & ~ok, CL, sub, band, pf, f[np.where(PB < 0, 0, PB)])
         c.evaluations += int(defined.sum())
-    pp = call(agg, "peak_period", raise_class, lambda: s.peak_period(fmin, fmax), n, layout, band)
+    pp = call(agg, "peak_period", raise_class, lambda: s.peak_period(fmin, fmax), n, layout, band) if want("peak_period") else None
     if pp is not None:
         ok = np.zeros(n, bool)
         with np.errstate(divide="ignore"):
@@ -500,9 +523,12 @@ def check_band(c, agg, s, mem, band, tab, layout, perfreq, rows=None, raise_clas
         ("peak_direction", lambda: s.peak_direction(fmin, fmax), perfreq[0], refdir),
         ("peak_directional_spread", lambda: s.peak_directional_spread(fmin, fmax), perfreq[1], refspr),
     ):
+        if not want(name):
+            continue
         v = call(agg, name, raise_class, fn, n, layout, band)
         if v is None:
             continue
+        got[name] = v
         ok = np.zeros(n, bool)
         nind = 0
         for R in cands:
@@ -523,6 +549,7 @@ def check_band(c, agg, s, mem, band, tab, layout, perfreq, rows=None, raise_clas
         report(agg, name, defined & ~ok, CL, sub, band, v, exp)
         c.evaluations += int(defined.sum())
         c.cat("direction_independent_checked", nind)
+    return got
 
 
 class _RowView:
@@ -597,6 +624,7 @@ def units(tier):
                 us.append({"name": f"{g}:{kind}:scalar:{ch}of{nch}", "grid": g, "kind": kind, "layout": "scalar",
                            "chunk": ch, "nchunks": nch, "cost": nw * nmask * w2 / nch / 4})
     us += history_units(tier)
+    us += neartie_units(tier)
     return us
 
 
@@ -626,7 +654,7 @@ def run_batched(unit):
         k = inband(f, *band)
         check_band(c, agg, s, mem, band, tabs[k], layout, perfreq)
         for name, cnt in tabs[k][3].items():
-            if name != "nontrivial":
+            if name not in ("nontrivial", "near_tie"):
                 c.cat(name, cnt)
         c.case({"band": [repr(band[0]), repr(band[1])], "n": n})
     if kind == "1d" and layout == "time":
@@ -638,6 +666,19 @@ def run_batched(unit):
     R = np.repeat(np.array(rows, dtype=int), len(DEPTHS))
     D = np.tile(np.array(DEPTHS), len(rows))
     check_wavenumber(c, agg, mem, layout, R, D, PBd, PA_default=PAd)
+
+    # ---- peak wavenumber on a dense lattice in w_p^2 d / g: every node with f > 0 as the peak (impulse word) x
+    # depths such that w_p^2 d / g runs from 1e-3 to 1e2 in steps of <= 5 %, all mixed inside one batch -------------
+    R, D = [], []
+    for j in range(nf):
+        imp = tuple(1.0 if i == j else 0.0 for i in range(nf))
+        if f[j] > 0.0 and imp in mem.words:
+            dl = depth_lattice(f[j])
+            R += [mem.words.index(imp)] * len(dl)
+            D += dl
+    if R:
+        check_wavenumber(c, agg, mem, layout, np.array(R, dtype=int), np.array(D), PBd, PA_default=PAd)
+        c.cat("wavenumber_depth_lattice", len(R))
 
     # ---- a batch that contains an all-NaN member: the other members still have a defined peak --------
     memn = Members(f, words, kind, None)
@@ -733,7 +774,7 @@ def run_scalar(unit):
 # ------------------------------------------------------------------------------------------
 HISTORY_GRID = "g5u"
 HISTORY_READS = ("peak", "wavenumber")
-HISTORY_MUTATORS = ("mul_full", "mul_frequency", "mul_direction", "fillna", "setitem", "dataset_assign")
+HISTORY_MUTATORS = ("mul_full", "mul_frequency", "mul_direction", "fillna", "setitem", "dataset_assign", "values_inplace")
 HISTORY_MAXLEN = 3
 HISTORY_WORDS = [
     (1.0, 2.0, 0.0, 2.0, 0.0), (0.0, None, 2.0, 1.0, 1.0), (2.0, 2.0, None, 0.0, 1.0),
@@ -981,6 +1022,14 @@ def one_history(c, agg, mem, layout, dep, hist, bands):
             s["variance_density"] = da.copy(data=2.0 * np.flip(da.values, axis=da.dims.index("frequency")) + 0.25)
         elif op == "dataset_assign":
             s.dataset["variance_density"] = 0.5 * s.dataset["variance_density"].roll(frequency=1, roll_coords=False)
+        elif op == "values_inplace":
+            # edit the object's own numpy buffer (dyadic, frequency dependent), the variable is not rebound
+            da = s.dataset["variance_density"]
+            buf = da.values
+            shp = [1] * buf.ndim
+            shp[da.dims.index("frequency")] = nf
+            buf *= np.array(HISTORY_FREQ_FACTOR[::-1]).reshape(shp)
+            buf += 0.125
         else:
             raise AssertionError(op)
         if not np.array_equal(before, default_peaks()):
@@ -990,7 +1039,82 @@ def one_history(c, agg, mem, layout, dep, hist, bands):
     read_wavenumber(last)
 
 
+# ------------------------------------------------------------------------------------------
+# near-tie / scale family: the peak is the maximum, however close the runner-up and whatever the units
+# ------------------------------------------------------------------------------------------
+# dyadic letters and scales: every product and directional sum is exact, so ties and near ties are decided exactly
+NT_LETTERS = (0.0, 1.0, 1.0 + 2.0 ** -20, 1.0 - 2.0 ** -23, None)
+NT_SCALES = (1.0, 2.0 ** -40, 2.0 ** -30, 2.0 ** 20)
+NT_GRIDS = {"quick": ["g5u"], "thorough": ["g5u", "g5z"]}
+NT_CHEAP = ("peak_index", "peak_frequency", "peak_period")
+
+
+def neartie_units(tier):
+    us = []
+    for g in NT_GRIDS[tier]:
+        for kind in ("1d", "2d:d4"):
+            for layout in LAYOUTS:
+                us.append({"name": f"neartie:{g}:{kind}:{layout}", "family": "neartie", "grid": g, "kind": kind,
+                           "layout": layout, "cost": 700 * (3.0 if kind != "1d" else 1.0)})
+    return us
+
+
+def run_neartie(unit):
+    c = Collector()
+    tier, g, kind, layout = unit["tier"], unit["grid"], unit["kind"], unit["layout"]
+    f = grids(tier)[g]
+    nf = len(f)
+    agg = Agg(c, {"grid": g, "kind": kind, "layout": layout, "family": "neartie"})
+    base = [w for w in itertools.product(NT_LETTERS, repeat=nf) if any(x is not None for x in w)]
+    bands = all_bands(f)
+    rbands = rep_bands(f, bands)
+    masks = [inband(f, *b) for b in rbands]
+    dir_bands = set(bands if tier == "thorough" else rbands)
+    first = {}  # band -> library values at scale 1
+    # named restriction 'neartie_scales_quick': quick runs all four scales in the (time) layout, {1, 2^-40} elsewhere
+    scales = NT_SCALES if (tier == "thorough" or layout == "time") else NT_SCALES[:2]
+    for scale in scales:
+        words = [tuple(None if x is None else x * scale for x in w) for w in base]
+        mem = Members(f, words, kind)
+        n = mem.n
+        tabs = mem.tables(masks)
+        s = mem.build(layout)
+        perfreq = perfreq_arrays(agg, s, n, nf, layout)
+        for band in bands:
+            k = inband(f, *band)
+            got = check_band(c, agg, s, mem, band, tabs[k], layout, perfreq, only=None if band in dir_bands else NT_CHEAP)
+            defined = tabs[k][1] >= 0
+            if scale == 1.0:  # 'near_tie': a value within 2e-6 relative of the in-band maximum that is not the maximum
+                first[band] = got
+                c.cat("near_tie_in_band", tabs[k][3].get("near_tie", 0))
+            else:
+                # law: scaling e by a positive constant moves no peak (index, frequency, direction, spread)
+                for name, v in got.items():
+                    v0 = first[band].get(name)
+                    if v0 is None or name == "peak_period":
+                        continue
+                    same = close(v, v0, rtol=0.0, atol=1e-9 if name.startswith("peak_dir") else 0.0)
+                    bad = defined & ~same
+                    c.evaluations += int(defined.sum())
+                    if bad.any():
+                        m = int(np.argmax(bad))
+                        agg.add("law:scale_invariance " + name, "general", int(bad.sum()),
+                                f"{name} changes when e is multiplied by {scale!r}: band={list(band)} word={base[m]} "
+                                f"unscaled={v0[m]!r} scaled={v[m]!r}", band=list(band), scale=scale, member=m)
+                c.cat("scaled_copies", int(defined.sum()))
+        c.cat("low_energy_members(max<1e-8)", int(sum(1 for v in mem.valsB if max((abs(x) for x in v if x is not None), default=0.0) < 1e-8)))
+        c.case({"scale": scale, "n": n, "bands": len(bands)})
+    c.cat("layout:" + layout, len(base))
+    c.cat("kind:" + kind[:2], len(base))
+    agg.flush()
+    c.sample({"family": "neartie", "grid": g, "kind": kind, "layout": layout, "letters": [str(x) for x in NT_LETTERS],
+              "scales": list(scales), "words": len(base), "bands": len(bands)})
+    return c.result()
+
+
 def run_unit(unit):
+    if unit.get("family") == "neartie":
+        return run_neartie(unit)
     if unit.get("family") == "history":
         return run_history(unit)
     return run_scalar(unit) if unit["layout"] == "scalar" else run_batched(unit)
